@@ -553,6 +553,25 @@ func checkCase(c *Case, count bool) error {
 		return fmt.Errorf("constructor rejected documented-valid parameters: %v", err)
 	}
 	w0, w1 := expect(c.Spec, c, 0), expect(c.Spec, c, 1)
+	// a resolver is a long-lived value shared by every request of a router: what it was asked before - a request without any
+	// header field, one from an unusable peer address, one whose header fields all name some other address - has no bearing on
+	// what it designates for this request
+	other := http.Header{}
+	for k, vs := range c.httpHeader(false) {
+		for range vs {
+			if strings.EqualFold(k, "Forwarded") {
+				other.Add(k, "for=9.9.9.9")
+			} else {
+				other.Add(k, "9.9.9.9")
+			}
+		}
+	}
+	for _, prior := range []struct {
+		h      http.Header
+		remote string
+	}{{http.Header{}, "192.0.2.33:4711"}, {c.httpHeader(false), "not-an-address"}, {other, "198.51.100.4:80"}, {http.Header{}, "[2001:db8::7]:443"}} {
+		_, _ = observe(res, c.Scope, prior.h, prior.remote)
+	}
 	got, err := observe(res, c.Scope, c.httpHeader(false), string(c.Remote.Text))
 	if err != nil {
 		return err
